@@ -107,6 +107,204 @@ theorem findIdxK_eq (t : Tables) (host port : Str) : findIdxK t host port = find
 theorem gen_findIdx (t : Tables) (host port : Str) : findHighestPriorityIndex t host port = findIdx t host port :=
   (gen_eq_K t host port).trans (findIdxK_eq t host port)
 
+set_option linter.unusedVariables false
+
+/-! ## A2. the regenerated loops in closed form -/
+
+/-- the body of the loop of the regenerated `variableMatch`, with `after` = the code following the loop (also the
+target of `break`) -/
+def varBody (rx : RxOracle) (ctx : Str → Option Str) (after : Bool → Str → Str → Bool) :
+    VarItem → Bool × Str × Str → (Bool × Str × Str → Bool) → Bool :=
+  fun v s3 next2 =>
+    let (result, walkVarName, lastMode) := s3
+    let walkVarName := v.name
+    let curStepRes := false
+    let opt4 := (ctx v.name)
+    let actual := opt4.getD default
+    let k5 := (fun (result : Bool) (walkVarName : Str) (lastMode : Str) (curStepRes : Bool) =>
+      let k6 := (fun (result : Bool) (walkVarName : Str) (lastMode : Str) (curStepRes : Bool) =>
+        let k7 := (fun (result : Bool) (walkVarName : Str) (lastMode : Str) (curStepRes : Bool) =>
+          let k8 := (fun (result : Bool) (walkVarName : Str) (lastMode : Str) (curStepRes : Bool) =>
+            let lastMode := v.model
+            next2 (result, walkVarName, lastMode))
+          if result then (
+            if (decide (v.model = modelOr)) then (
+              after result walkVarName lastMode)
+            else (
+              k8 result walkVarName lastMode curStepRes))
+          else (
+            k8 result walkVarName lastMode curStepRes))
+        if (decide (lastMode = modelAnd)) then (
+          let result := (result && curStepRes)
+          k7 result walkVarName lastMode curStepRes)
+        else (
+          let result := curStepRes
+          k7 result walkVarName lastMode curStepRes))
+      if (Option.isSome v.regexPattern) then (
+        let curStepRes := (rxMatch rx v.regexPattern actual)
+        k6 result walkVarName lastMode curStepRes)
+      else (
+        k6 result walkVarName lastMode curStepRes))
+    if (Option.isSome v.value) then (
+      let curStepRes := (decide ((Option.getD v.value default) = actual))
+      k5 result walkVarName lastMode curStepRes)
+    else (
+      k5 result walkVarName lastMode curStepRes)
+
+def varAfter : Bool → Str → Str → Bool := fun result _ _ => if result then true else false
+
+/-- the regenerated function is the stateful loop over `varBody` (definitional) -/
+theorem variableMatch_unfold (rx : RxOracle) (ctx : Str → Option Str) (items : List VarItem) :
+    variableMatch rx ctx items =
+      forRangeS items (varBody rx ctx varAfter) (true, [], modelAnd) (fun s => varAfter s.1 s.2.1 s.2.2) := rfl
+
+theorem varLoop_step (rx : RxOracle) (ctx : Str → Option Str) (v : VarItem) (K : Bool × Str × Str → Bool)
+    (f : Bool → Str → Bool) (hK : ∀ b w m, K (b, w, m) = f b m) (result : Bool) (w lastMode : Str) :
+    varBody rx ctx varAfter v (result, w, lastMode) K =
+      (let actual := (ctx v.name).getD []
+       let cur := match v.value with
+         | some x => decide (x = actual)
+         | none => false
+       let cur := match v.regexPattern with
+         | some id => rx id actual
+         | none => cur
+       let result := if lastMode = modelAnd then result && cur else cur
+       if result && decide (v.model = modelOr) then result else f result v.model) := by
+  obtain ⟨name, value, rp, model⟩ := v
+  have hd : (default : Str) = [] := rfl
+  cases value <;> cases rp <;> by_cases hm : lastMode = modelAnd <;> by_cases ho : model = modelOr <;>
+    simp [varBody, varAfter, hK, hm, ho, rxMatch, hd]
+
+theorem gen_variableMatch_aux (rx : RxOracle) (ctx : Str → Option Str) : ∀ (items : List VarItem)
+    (result : Bool) (w lastMode : Str),
+    forRangeS items (varBody rx ctx varAfter) (result, w, lastMode) (fun s => varAfter s.1 s.2.1 s.2.2)
+      = varLoop rx ctx items result lastMode
+  | [], result, w, lastMode => by cases result <;> simp [forRangeS, varLoop, varAfter]
+  | v :: r, result, w, lastMode => by
+    have ih := gen_variableMatch_aux rx ctx r
+    show varBody rx ctx varAfter v (result, w, lastMode)
+      (fun s' => forRangeS r (varBody rx ctx varAfter) s' (fun s => varAfter s.1 s.2.1 s.2.2)) = _
+    rw [varLoop_step rx ctx v _ (fun b m => varLoop rx ctx r b m) (fun b w m => ih b w m)]
+    rfl
+
+/-- **the regenerated `VariableRouteRuleImpl.Match` is the closed-form loop** -/
+theorem gen_variableMatch (rx : RxOracle) (ctx : Str → Option Str) (items : List VarItem) :
+    variableMatch rx ctx items = varLoop rx ctx items true modelAnd := by
+  rw [variableMatch_unfold]; exact gen_variableMatch_aux rx ctx items true [] modelAnd
+
+
+theorem gen_getRoute {ρ : Type} (m : ρ → Option ρ) (l : List ρ) : getRouteFromEntries m l = l.findSome? m := by
+  unfold getRouteFromEntries
+  induction l with
+  | nil => rfl
+  | cons a r ih =>
+    simp only [forRange, List.foldr_cons, List.findSome?_cons] at ih ⊢
+    cases h : m a with
+    | none => simpa using ih
+    | some x => simp
+
+theorem gen_getAll_aux {ρ : Type} (m : ρ → Option ρ) : ∀ (l : List ρ) (acc : List ρ),
+    forRangeS l (fun route s3 next2 =>
+      let routes := s3
+      let r := (m route)
+      if (Option.isSome r) then (
+        let routes := (routes ++ r.toList)
+        next2 routes)
+      else (
+        next2 routes)) acc (fun s3 => s3) = acc ++ l.filterMap m
+  | [], acc => by simp [forRangeS]
+  | a :: r, acc => by
+    simp only [forRangeS, List.filterMap_cons]
+    cases h : m a with
+    | none => simpa using gen_getAll_aux m r acc
+    | some x =>
+      simp only [Option.isSome_some, if_true, Option.toList_some]
+      rw [gen_getAll_aux m r (acc ++ [x])]
+      simp
+
+theorem gen_getAll {ρ : Type} (m : ρ → Option ρ) (l : List ρ) : getAllRoutesFromEntries m l = l.filterMap m := by
+  have := gen_getAll_aux m l []
+  have hd : (default : List ρ) = [] := rfl
+  simpa [getAllRoutesFromEntries, hd] using this
+
+/-- positions (from `n`) of the elements satisfying `q` -/
+def idxs {α : Type} (q : α → Bool) : List α → Nat → List Nat
+  | [], _ => []
+  | a :: r, n => (if q a then [n] else []) ++ idxs q r (n + 1)
+
+theorem zipIdx_filterMap {α : Type} (q : α → Bool) : ∀ (l : List α) (n : Nat),
+    ((l.zipIdx n).filterMap (fun p => if q p.1 then some p else none)).map (·.2) = idxs q l n
+  | [], _ => rfl
+  | a :: r, n => by
+    simp only [List.zipIdx_cons, List.filterMap_cons, idxs]
+    cases q a <;> simp [zipIdx_filterMap q r (n + 1)]
+
+theorem zipIdx_findSome {α : Type} (q : α → Bool) : ∀ (l : List α) (n : Nat),
+    ((l.zipIdx n).findSome? (fun p => if q p.1 then some p else none)).map (·.2) = (l.findIdx? q).map (· + n)
+  | [], _ => rfl
+  | a :: r, n => by
+    simp only [List.zipIdx_cons, List.findSome?_cons, List.findIdx?_cons]
+    cases h : q a
+    · simp only [Bool.false_eq_true, if_false]
+      rw [zipIdx_findSome q r (n + 1)]
+      cases r.findIdx? q <;> simp; omega
+    · simp
+
+theorem range'_filter_idxs {α : Type} (q : α → Bool) : ∀ (l : List α) (n : Nat),
+    (List.range' n l.length).filter (fun i => (l[i - n]?).any q) = idxs q l n
+  | [], _ => rfl
+  | a :: r, n => by
+    simp only [List.length_cons, List.range'_succ, List.filter_cons, Nat.sub_self, List.getElem?_cons_zero,
+      Option.any_some, idxs]
+    have : (List.range' (n + 1) r.length).filter (fun i => ((a :: r)[i - n]?).any q) = idxs q r (n + 1) := by
+      rw [← range'_filter_idxs q r (n + 1)]
+      apply List.filter_congr
+      intro i hi
+      have hge : n + 1 ≤ i := (List.mem_range'_1.mp hi).1
+      have : i - n = (i - (n + 1)) + 1 := by omega
+      rw [this, List.getElem?_cons_succ]
+    rw [this]
+    cases q a <;> simp
+
+/-- `GetRouteFromEntries` (regenerated loop) returns the first matching rule -/
+theorem selectRoute_eq (rx : RxOracle) (req : Req) (rules : List Rule) :
+    selectRoute rx req rules = rules.findIdx? (matchRule rx req) := by
+  unfold selectRoute
+  rw [gen_getRoute]
+  have := zipIdx_findSome (matchRule rx req) rules 0
+  simp only [Nat.add_zero, Option.map_id'] at this
+  exact this
+
+/-- `GetAllRoutesFromEntries` (regenerated loop) returns the positions of all matching rules, in order -/
+theorem allRoutes_eq (rx : RxOracle) (req : Req) (rules : List Rule) :
+    allRoutes rx req rules = (List.range rules.length).filter (fun i => (rules[i]?).any (matchRule rx req)) := by
+  unfold allRoutes
+  rw [gen_getAll]
+  have h1 := zipIdx_filterMap (matchRule rx req) rules 0
+  have h2 := range'_filter_idxs (matchRule rx req) rules 0
+  simp only [Nat.sub_zero] at h2
+  rw [List.range_eq_range', h2, ← h1]
+  rfl
+
+/-- **the regenerated `findVirtualHost` in closed form** -/
+theorem gen_findVirtualHost (t : Tables) (ctx : Str → Option Str) :
+    Gen.Route.findVirtualHost splitGraceful t ctx = findVirtualHost t (ctx varHost) := by
+  unfold Gen.Route.findVirtualHost findVirtualHost
+  have hd : (default : Str) = [] := rfl
+  by_cases h1 : t.virtualHostPortsMap.length = 0 <;> by_cases h2 : t.portWildcardVirtualHost.length = 0 <;>
+    by_cases h3 : t.defaultVirtualHostIndex = -1 <;>
+    cases hc : ctx varHost with
+    | none => simp [mapLen, h1, h2, h3, hd]
+    | some h =>
+      by_cases h0 : h = []
+      · simp [mapLen, h1, h2, h3, h0]
+      · cases hs : splitGraceful (lower h) with
+        | none => simp [mapLen, h1, h2, h3, h0, hs]
+        | some hp =>
+          simp [mapLen, h1, h2, h3, h0, hs]
+          try (intro hh; exact hh.symm)
+
+
 open Spec
 
 /-! ## B. maps -/
@@ -1043,7 +1241,7 @@ theorem rule_refines (rx : RxOracle) (req : Req) {m : MatchCfg} {rule : Rule} (h
           split at h
           · rename_i items hmap
             injection h with h; subst h
-            simp only [matchRule]
+            simp only [matchRule, gen_variableMatch]
             exact varLoop_refines rx req m.variables items true hmap
           · cases h
         · rename_i hvs
@@ -1107,6 +1305,7 @@ theorem findIdx?_congr {α β : Type} (p : α → Bool) (q : β → Bool) : ∀ 
 theorem select_refines (rx : RxOracle) (req : Req) {ms : List MatchCfg} {rules : List Rule}
     (h : mkRules ms = .ok rules) : selectRoute rx req rules = Spec.route rx req ms := by
   have ⟨hl, hi⟩ := mkRules_findIdx rx req ms rules h
+  rw [selectRoute_eq]
   exact findIdx?_congr _ _ rules ms hl hi
 
 
@@ -1140,7 +1339,8 @@ theorem build_rules {srt : List Wild → List Wild} {cfg : Config} {t : Tables} 
 theorem allRoutes_refines (rx : RxOracle) (req : Req) {ms : List MatchCfg} {rules : List Rule}
     (h : mkRules ms = .ok rules) : allRoutes rx req rules = Spec.routesAll rx req ms := by
   have ⟨hl, hi⟩ := mkRules_findIdx rx req ms rules h
-  unfold allRoutes Spec.routesAll
+  rw [allRoutes_eq]
+  unfold Spec.routesAll
   rw [hl]
   apply List.filter_congr
   intro i _
@@ -1155,13 +1355,13 @@ theorem answer_refines {srt : List Wild → List Wild} (hs : IsSorter srt) {cfg 
   have hv := vhost_refines_core hs hb (req.var ['x', '-', 'm', 'o', 's', 'n', '-', 'h', 'o', 's', 't'])
   unfold answer Spec.answer
   have hvar : varHost = ['x', '-', 'm', 'o', 's', 'n', '-', 'h', 'o', 's', 't'] := rfl
-  simp only [hvar, hv]
+  simp only [findVirtualHostG, gen_findVirtualHost, hvar, hv]
   split
   · rfl
   · generalize Spec.vhost cfg (req.var ['x', '-', 'm', 'o', 's', 'n', '-', 'h', 'o', 's', 't']) = vh
     unfold rulesOf
     cases hc : cfg[vh.toNat]? with
-    | none => simp [selectRoute, allRoutes, Spec.route, Spec.routesAll]
+    | none => simp [selectRoute_eq, allRoutes_eq, Spec.route, Spec.routesAll]
     | some v =>
       obtain ⟨rs, hrs⟩ := build_rules hb v (List.mem_of_getElem? hc)
       simp only [hrs, select_refines rx req hrs, allRoutes_refines rx req hrs]
@@ -1181,8 +1381,7 @@ theorem find?_range_eq_findIdx? {α : Type} (p : α → Bool) : ∀ l : List α,
 
 theorem allRoutes_head (rx : RxOracle) (req : Req) (rules : List Rule) :
     (allRoutes rx req rules).head? = selectRoute rx req rules := by
-  unfold allRoutes selectRoute
-  rw [List.head?_filter]
+  rw [allRoutes_eq, selectRoute_eq, List.head?_filter]
   exact find?_range_eq_findIdx? (matchRule rx req) rules
 
 end MosnVerif.Model.Route
